@@ -463,6 +463,19 @@ example : unbindURIAttr [56, 46, 37, 48, 50] = some ⟨.set, [56, 92, 46, 42]⟩
 theorem uri_logical_values : unbindURIAttr [] = some ⟨.any, []⟩ ∧ unbindURIAttr [45] = some ⟨.na, []⟩ := by
   decide
 
+/-- A component with a non-ASCII byte is rejected, also one that
+    `strings.ToLower` would turn into ASCII (`cpe:/a:` + U+212A KELVIN SIGN was
+    accepted as vendor `k` before /repo 33457076). -/
+theorem uri_nonascii_rejected (s : Str) (h : ∃ c ∈ s, 127 ≤ c) : unbindURIAttr s = none := by
+  obtain ⟨c, hc, h127⟩ := h
+  have h0 : s ≠ [] := by intro e; rw [e] at hc; cases hc
+  have h45 : s ≠ [45] := by
+    intro e; rw [e] at hc; simp at hc; omega
+  have hany : s.any (fun c => decide (127 ≤ c)) = true := List.any_eq_true.2 ⟨c, hc, by simpa using h127⟩
+  simp [unbindURIAttr, h0, h45, hany]
+
+example : unbindURI [99, 112, 101, 58, 47, 97, 58, 226, 132, 170] = none := by decide
+
 /-- Upper-case letters are not preserved by a URI (the unbinder lower-cases). -/
 theorem uri_uppercase_counterexample : unbindURIAttr [70, 111, 111] = some ⟨.set, [102, 111, 111]⟩ := by
   decide
